@@ -596,8 +596,28 @@ def groupby_keys(apply_call):
     return None
 
 
+def scatter_adds(stmts):
+    """np.add.at(A, I, V)  ->  A[I] += V.  The unbuffered form counts a repeated index as often as it occurs, the buffered one once: the two
+    agree exactly when the indices are distinct - which the rule on the draw (replace=False) demands anyway."""
+    from ..srcmodel import clone
+    stmts = clone(stmts)
+    for owner in [x for st in stmts for x in ast.walk(st)] + [None]:
+        for fld in ('body', 'orelse'):
+            blk = stmts if owner is None else getattr(owner, fld, None)
+            if owner is None and fld == 'orelse':
+                continue
+            if not isinstance(blk, list):
+                continue
+            for k, x in enumerate(blk):
+                if isinstance(x, ast.Expr) and isinstance(x.value, ast.Call) and U(x.value.func) in ('np.add.at', 'numpy.add.at') and len(x.value.args) == 3:
+                    A, I_, V = x.value.args
+                    new = ast.AugAssign(target=ast.Subscript(value=A, slice=I_, ctx=ast.Store()), op=ast.Add(), value=V)
+                    blk[k] = ast.fix_missing_locations(ast.copy_location(new, x))
+    return stmts
+
+
 def check_generator(ctx, fi, G, counts, rows, method_p):
-    be = walk(G.body)
+    be = walk(scatter_adds(G.body))
     R = be.env.get('__ret__')
     if R is None:
         raise AnalysisError('synthetic_data: the column generator returns nothing')
